@@ -1016,11 +1016,9 @@ fn check_bytes(rep: &mut Reporter, b: &[u8], how: &Value) -> Option<&'static str
         rep.count("reencode-identical");
         return Some(ty);
     }
-    let Some(l) = layout(b) else {
-        rep.inconclusive("harness layout walker cannot parse an input the decoder accepted", json!({"bytes_hex": hex(&b[..b.len().min(512)])}));
-        return Some(ty);
-    };
-    if ty == TYPES[0] && l.ty == TYPES[0] && l.agent_at.is_none() {
+    // The exception is decided on bytes alone: if serialize(m) is b followed by the default agent,
+    // then b is the canonical encoding up to and including the nonce, i.e. b has no agent at all.
+    if ty == TYPES[0] {
         let mut expect = b.to_vec();
         expect.extend(serialize(&UserAgent::default()));
         if r == expect {
@@ -1028,11 +1026,18 @@ fn check_bytes(rep: &mut Reporter, b: &[u8], how: &Value) -> Option<&'static str
             return Some(ty);
         }
     }
+    // Name the field of the first difference: by the layout of the input, else by the layout of the
+    // re-encoding (the walker only names, it never decides).
     let i = r.iter().zip(b.iter()).position(|(x, y)| x != y).unwrap_or(r.len().min(b.len()));
-    let field = field_at(&l, i);
+    let lb = layout(b);
+    let field = match (&lb, layout(&r)) {
+        (Some(l), _) => field_at(l, i),
+        (None, Some(l)) => field_at(&l, i),
+        _ => "field-not-located",
+    };
     let sig = if (ty == "ping" || ty == "pong") && field == "zeroes-padding" {
         "C15/reencode-differs/ping-pong-nonzero-padding".to_string()
-    } else if ty == TYPES[0] && l.agent_truncated {
+    } else if ty == TYPES[0] && lb.as_ref().is_some_and(|l| l.agent_truncated) {
         "C15/reencode-differs/node-announcement/truncated-agent-taken-as-absent".to_string()
     } else {
         format!("C15/reencode-differs/{ty}/{field}")
@@ -1193,7 +1198,7 @@ fn mutate_once(rng: &mut Rng, b: &[u8], l: Option<&Layout>) -> Option<(Vec<u8>, 
                         v[f.s] = *rng.pick(&[0u8, 1, cur.wrapping_add(1), cur.wrapping_sub(1), 32, 33, 64, 65, 255]);
                     } else {
                         let cur = u16::from_be_bytes([v[f.s], v[f.s + 1]]);
-                        let x = *rng.pick(&[0u16, 1, cur.wrapping_add(1), cur.wrapping_sub(1), cur.wrapping_mul(2), 16, 17, 20, 32, 1024, 1025, 2973, 2974, 4096, 16384, 0xffff, cur.swap_bytes()]);
+                        let x = *rng.pick(&[0u16, 1, cur.wrapping_add(1), cur.wrapping_sub(1), cur.wrapping_mul(2), 16, 17, 20, 32, 1024, 1025, 2973, 2974, 4096, 16384, 0xffff, cur.swap_bytes(), cur ^ 0x0100, cur | 0x8000]);
                         put16(&mut v, f.s, x as usize);
                     }
                     Some((v, "length-field-only"))
@@ -1531,8 +1536,8 @@ pub fn run(args: &Args) {
     if args.shard == 0 {
         probes(&mut rep);
     }
-    let nr = args.budget(400_000, 8_000_000);
-    let nm = args.budget(4_000_000, 80_000_000);
+    let nr = args.budget(400_000, 4_000_000);
+    let nm = args.budget(4_000_000, 40_000_000);
     for k in 0..nr {
         roundtrip_case(&mut rep, args.case_seed(k));
     }
